@@ -3426,7 +3426,7 @@ func (vm *Thread) opLessThanFloat() {
 	right := vm.popGet()
 	left := vm.peek()
 
-	l := left.AsSmallInt()
+	l := left.AsFloat()
 	result, _ := l.LessThanVal(right)
 	vm.replace(result)
 }
